@@ -297,6 +297,21 @@ pub fn run(ctx: &Ctx) -> (Stats, Spec) {
             }
         }
     }
+    // file names that are not valid UTF-8: same formula as through stdin / stdout
+    {
+        let csv = "a,b\nb,a\nb,c\nc,b\nc,d\n";
+        let plain = cli::run(&ctx.bin("max_clique_gen"), &["-u".to_string()], Some(csv.as_bytes()), None, None, Duration::from_secs(60));
+        let (out, written) = super::common::run_with_non_utf8_paths(ctx, "max_clique_gen", &["-u"], Some(csv.as_bytes()), &[], true, "c16");
+        st.evals += 1;
+        if !out.timed_out && !plain.timed_out {
+            let same = matches!((written.as_deref().map(refsyn::parse_text), refsyn::parse_text(&plain.stdout_str())), (Some(Ok(x)), Ok(y)) if x == y);
+            if !out.ok() || !same || !out.stdout_str().trim().is_empty() {
+                st.violate("c16.run", "C16:non-utf8-file-names".into(), format!("max_clique_gen -u IN OUT with file names that are not valid UTF-8: {}; OUT holds {:?} bytes, stdout {} bytes (expected the formula in OUT only)", out.status_string(), written.as_ref().map(|w| w.len()), out.stdout.len()), json!({"kind": "non-utf8-names"}));
+            } else {
+                st.bump("file_names_not_valid_utf8");
+            }
+        }
+    }
     let spec = Spec {
         rule: "edge lists: every digraph on 3 vertices (4 vertices: every 4th [quick] / all [thorough]) x {-u} x {-a}, random graphs on 5-6 (thorough: also 7-8) vertices with self-loops, duplicates, one-directional edges, shuffled rows, LF / CRLF line ends, missing final newline and quoted fields, empty and complete graphs; inputs beyond 8 KiB (thousands of duplicate records, vertex names of 4-5 thousand characters); vertex names plain, with ' _ digits, non-ASCII, the pair {x, v_x}, names that differ only in case ({a, A, ab, Ab, aB, AB}, {é, É, ı, i, I, İ}), and name families that collide under string concatenation / prefixing ({a, b, a_b, b_a, a_b_a}, {v, v_v, v_, _v}, {n, n1, n10, n_1}); input via file or stdin, output via stdout or file. The emitted text is parsed and evaluated by the reference; for EVERY subset of the vertices 'is a model' must equal 'is a (maximum) clique'. distinct = (edge set, flags); non-trivial = at least one edge and one non-adjacent pair.".into(),
         assumptions: vec![
